@@ -79,12 +79,17 @@ def confirm_integration(h, ov, logdir, replay_path, testfile):
     if re.search(r"test result: FAILED", out):
         mm = re.findall(r"^(\d+ violations, first:.*)$", out, re.M) or [x.replace("\n", " ") for x in re.findall(r"panicked at [^\n]*\n([^\n]*)", out)]
         return True, (mm[0][:300] if mm else "native test failed (see %s)" % lf)
+    if re.search(r"non-unwinding panic|unsafe precondition\(s\) violated", out) and re.search(r"SIGABRT|signal: 6", out):
+        # std's debug-profile check of an unsafe precondition (e.g. Vec::set_len beyond the capacity) fired: the real
+        # code committed the undefined behaviour the harness flagged, and only the debug build notices
+        return True, "the real code aborts on a violated unsafe precondition (non-unwinding panic) - undefined behaviour in a release build"
     if re.search(r"test result: ok\. [1-9]", out):
         return False, "the native single-fault sweep through the real crates finds nothing"
     return None, "native replay did not run (see %s)" % lf
 
 
-INTEGRATION = {"stream": "stream_native.rs", "f2": "defects_native.rs:f2_", "f3": "defects_native.rs:f3_"}
+INTEGRATION = {"stream": "stream_native.rs", "f2": "defects_native.rs:f2_", "f3": "defects_native.rs:f3_",
+               "overclaim": "overclaim_native.rs"}
 
 
 def confirm(h, ov, vals, logdir, replay_path):
